@@ -1,0 +1,28 @@
+//go:build verif
+
+// Verification hook for property C12 (/verif): add-only accessors for the unexported virtual-host
+// domain functions. No behaviour change; the file vanishes without the `verif` build tag.
+
+package core
+
+import (
+	"istio.io/istio/pilot/pkg/model"
+	"istio.io/istio/pkg/config"
+	"istio.io/istio/pkg/config/host"
+	"istio.io/istio/pkg/util/sets"
+)
+
+// VerifC12DedupeDomains exposes dedupeDomains (the domains slice is filtered in place).
+func VerifC12DedupeDomains(domains []string, vhdomains sets.String, expandedHosts []string, knownFQDNs sets.String) []string {
+	return dedupeDomains(domains, vhdomains, expandedHosts, knownFQDNs)
+}
+
+// VerifC12GenerateVirtualHostDomains exposes generateVirtualHostDomains.
+func VerifC12GenerateVirtualHostDomains(service *model.Service, listenerPort int, port int, node *model.Proxy) ([]string, []string) {
+	return generateVirtualHostDomains(service, listenerPort, port, node)
+}
+
+// VerifC12SelectVirtualServices exposes selectVirtualServices.
+func VerifC12SelectVirtualServices(virtualServices []*config.Config, servicesByName map[host.Name]*model.Service) []*config.Config {
+	return selectVirtualServices(virtualServices, servicesByName)
+}
